@@ -12,7 +12,7 @@ QUERIES = [
     ("M105", "T:{x} /0.0 B:{y} /0.0 @:0 B@:0"),
     ("?", "<Idle|MPos:{x},{y},{z}|FS:0,0>"),
 ]
-UNSOL = ["echo:busy: processing", " T:21.3 /0.0 B:20.1 /0.0 @:0 B@:0", "[MSG:Pgm End]",
+UNSOL = ["", " ", "echo:busy: processing", " T:21.3 /0.0 B:20.1 /0.0 @:0 B@:0", "[MSG:Pgm End]",
          "echo:Unknown command: \"foo\"", "wait", "//action:notification idle",
          "<Run|MPos:1.000,2.000,3.000|FS:100,0>"]
 UNSOL_READINGS = {
@@ -74,7 +74,8 @@ def gen(seed, run, sub="clean", tier="quick"):
             draws["seggap"] = [r.choice([0.0, 0.001, 0.1, 0.3, 0.6]) for _ in range(8)]
         draws["spurious"] = [1 if r.random() < 0.1 else 0 for _ in range(16)] if r.random() < 0.3 else []
     cfg = {"greeting": r.choice(GREETINGS), "boot": r.choice([0.0, 0.05, 1.2]),
-           "drop_while_booting": r.random() < 0.3, "resend_with_ok": True}
+           "drop_while_booting": r.random() < 0.3, "resend_with_ok": True,
+           "dev_eol": r.choice(["\n", "\n", "\r\n"]), "ok_style": r.choice(["plain", "plain", "advanced"])}
     if not cfg["greeting"]:
         cfg["drop_while_booting"] = False if r.random() < 0.7 else True
     if cfg["greeting"].startswith("Grbl") and r.random() < 0.85:
@@ -417,7 +418,10 @@ def check(scn, k, fw, hist, state, lost, DeviceError, hostmsgs, ackhist, relaxed
         cand = [s_ for s_ in sets if hs < s_ < nxt_start]
         acted.append(cand[0] if cand and (is_ack(t) or is_err(t)) else None)
     host_done = {}   # emission seq -> seq at which the host acted on that line
-    for j, e in enumerate([e for e in fw.emitted if not e["dropped"]]):
+    # printcore hands a line to the writer only if it is longer than one character (a bare
+    # newline is not forwarded)
+    forwarded = [e for e in fw.emitted if not e["dropped"] and len(e["text"] + fw.eol) > 1]
+    for j, e in enumerate(forwarded):
         if j < len(hostmsgs):
             if hostmsgs[j][1] != e["text"].strip():
                 # lines delivered around a disconnect may legitimately never be read; the
